@@ -134,7 +134,10 @@ def extract():
         has_drop = re.search(r"impl\s+Drop\s+for\s+" + ty + r"\s*\{[^}]*fn\s+drop\s*\(&mut\s+self\)\s*\{[^}]*self\.zeroize\(\)", src, re.S) is not None
         zm = re.search(r"impl\s+Zeroize\s+for\s+" + ty + r"\s*\{[^}]*fn\s+zeroize\s*\(&mut\s+self\)\s*\{([^}]*)\}", src, re.S)
         covers = bool(zm and re.search(field_pat, zm.group(1)))
-        return {"dropZeroizes": has_drop, "zeroizeCoversSecret": covers}
+        # `a.clone_from(&b)` is `*a = b.clone()` (the old value of `a` is dropped, hence wiped) unless the type writes its own clone_from
+        cm = re.search(r"impl\s+Clone\s+for\s+" + ty + r"\s*\{(.*?)\n\}", src, re.S)
+        own_clone_from = bool(cm and re.search(r"fn\s+clone_from\s*\(", cm.group(1)))
+        return {"dropZeroizes": has_drop, "zeroizeCoversSecret": covers, "assignDropsOld": not own_clone_from}
     v["containers"] = {
         "PrivateKey": drop_info(lib, "PrivateKey", r"self\.key(\.as_mut_slice\(\))?\.zeroize\(\)"),
         "PayloadKey": drop_info(lib, "PayloadKey", r"self\.key\.zeroize\(\)"),
@@ -325,11 +328,12 @@ def render(v):
     A("  name : String")
     A("  dropZeroizes : Bool")
     A("  zeroizeCoversSecret : Bool")
+    A("  assignDropsOld : Bool")
     A("deriving Repr, DecidableEq")
     A("def containers : List Container := [")
     items = []
     for n, d in v["containers"].items():
-        items.append(f'  ⟨"{n}", {str(d["dropZeroizes"]).lower()}, {str(d["zeroizeCoversSecret"]).lower()}⟩')
+        items.append(f'  ⟨"{n}", {str(d["dropZeroizes"]).lower()}, {str(d["zeroizeCoversSecret"]).lower()}, {str(d["assignDropsOld"]).lower()}⟩')
     A(",\n".join(items) + "]")
     A("")
     A("structure PanicSite where")
